@@ -67,7 +67,7 @@ CLAIMED = {
          "DESIGN.md §4 C02"),
  "C04": ("exploration", "runtime monitoring: round-trip + independent spec decoder oracle over PRNG value sequences with dirty reused dst buffers; offline cross-build digest join (std / purego / AVX-disabled)",
          "Held on every explored (encoding, kind, sequence, dst history) case: library decode == input, independent decoder (written from the format spec) == input, and sha256 of encoded and decoded bytes identical across the assembly, purego and AVX-disabled variants. Unbounded input space sampled at block/miniblock/8-group boundaries: exploration.",
-         "Trusted: specreader's decoders (validated against the parquet-testing files). RLE run values wider than the bit width are masked and counted (leniency).",
+         "Trusted: specreader's decoders (validated against the parquet-testing files). RLE run values wider than the bit width are masked and counted (leniency). Memory safety of the assembly kernels is observed only through their output (dirty dst buffers of several capacities, three implementations compared): an over-read that never changes output is not observable; no guard-page allocator was built.",
          "DESIGN.md §4 C04"),
  "C17": ("exploration", "runtime monitoring: sha256 equality of files written from equal (rows, options) under different process/instance histories, offline digest join across std/purego/AVX-disabled builds",
          "Held on every explored case: fresh writer twice, after unrelated writes, writer reused through Reset after completed/abandoned/failed files of other content, other goroutine, reused GenericBuffer/RowBuffer/SortingWriter all produce identical bytes; fresh digests equal across three build/CPU variants. Histories and inputs are sampled: exploration.",
